@@ -11,6 +11,8 @@ pub fn run_check(prop: &str, _args: &[String]) -> i32 {
         "C01" | "C02" | "C03" | "C16" | "C18" => seq_family(prop),
         "C06" | "C07" => sched_family(prop),
         "C04" | "C05" => crash_family(prop),
+        "C17" => fault_check(),
+        "C10" => cow_check(),
         _ => {
             eprintln!("unknown property {}", prop);
             2
@@ -18,8 +20,135 @@ pub fn run_check(prop: &str, _args: &[String]) -> i32 {
     }
 }
 
-pub fn replay(_path: &str) -> i32 {
-    2
+pub fn find_image(name: &str) -> Option<ImageSet> {
+    for g in [images::G9, images::G10, images::G12, images::G12B, images::G16] {
+        for k in ["libfmt", "empty", "data", "zero", "compressed", "compressed-boundary", "backing", "backing-short", "backing-long", "chain2", "shortl1"] {
+            if !(name.starts_with(g.name) || name.starts_with("libfmt")) {
+                continue;
+            }
+            let r = std::panic::catch_unwind(|| images::initial_images(&g, &[k]));
+            if let Ok(mut v) = r {
+                if v[0].name == name {
+                    return Some(v.remove(0));
+                }
+            }
+        }
+    }
+    crate::extra::find_extra_image(name)
+}
+
+/// re-run one recorded case without any explorer and print what happens
+pub fn replay(path: &str) -> i32 {
+    let txt = match std::fs::read_to_string(path) {
+        Ok(t) => t,
+        Err(e) => {
+            eprintln!("cannot read {}: {}", path, e);
+            return 2;
+        }
+    };
+    let v: Value = serde_json::from_str(&txt).unwrap();
+    let r = if v.get("replay").is_some() { v["replay"].clone() } else { v.clone() };
+    println!("property: {}  class: {}", v["property"], v["class"]);
+    println!("recorded detail: {}", v["detail"]);
+    qcow2_rs::verif::set_order_salt(r["salt"].as_u64().unwrap_or(0) as usize);
+    match r["engine"].as_str().unwrap_or("") {
+        "hist" | "fault" => {
+            let img = match find_image(r["image"].as_str().unwrap()) {
+                Some(i) => i,
+                None => {
+                    eprintln!("unknown image {}", r["image"]);
+                    return 2;
+                }
+            };
+            let cfg = DevCfg::from_json(&r["cfg_json"]);
+            let alt = r.get("alt_json").map(DevCfg::from_json).unwrap_or(cfg.clone());
+            let hist: Vec<Op> = r["history"].as_array().unwrap().iter().map(|o| Op::from_json(o).unwrap()).collect();
+            let mut w = World::new(img.files.clone(), img.rd.clone(), &cfg, &alt).unwrap();
+            if r["punch_unsupported"].as_bool().unwrap_or(false) {
+                w.sim.borrow_mut().fault.punch_unsupported = true;
+            }
+            if let Some(f) = r.get("fault") {
+                let mut s = w.sim.borrow_mut();
+                if let Some(ids) = f.get("fail_ids").and_then(|x| x.as_array()) {
+                    s.fault.fail_ids = ids.iter().map(|x| x.as_u64().unwrap() as usize).collect();
+                }
+                if let Some(k) = f.get("fail_kind").and_then(|x| x.as_str()) {
+                    s.fault.fail_kinds = vec![k.chars().next().unwrap()];
+                }
+                if f.get("punch_unsupported").is_some() {
+                    s.fault.punch_unsupported = true;
+                }
+            }
+            println!("image {} ({} bytes), cfg {}", img.name, img.files[0].len(), cfg.describe());
+            println!("-- open: {} requests", w.sim.borrow().reqs.len());
+            for op in hist.iter() {
+                let before = w.sim.borrow().reqs.len();
+                let res = w.step(op);
+                println!("{} -> {}", op.short(), res.short());
+                if let Op::Read { off, len } = op {
+                    let exp = w.expect(*off, *len);
+                    for (i, (g, e)) in res.words.iter().zip(exp.iter()).enumerate() {
+                        if *g != Some(*e) {
+                            println!("    block {}: expected {} got {}", i, describe_word(Some(*e)), describe_word(*g));
+                        }
+                    }
+                }
+                for l in w.sim.borrow().log_lines(before) {
+                    println!("      {}", l);
+                }
+            }
+            if let Some(d) = &w.dev {
+                let ms = sweep(d, &w.rd, 1usize << w.cur_cfg().bs_bits, true);
+                for m in ms {
+                    println!("SWEEP MISMATCH [{}] read_at({:#x},{}): {}", m.shape, m.off, m.len, m.what);
+                }
+                println!("need_flush_meta = {}", d.need_flush_meta());
+            }
+            let rep = crate::spec::check_image(&w.sim.borrow().files[0]);
+            println!("checker (volatile file): {:?}", rep.first_problem(true));
+            0
+        }
+        "sched" => {
+            let img = find_image(r["image"].as_str().unwrap()).unwrap();
+            let cfg = DevCfg::from_json(&r["cfg_json"]);
+            let ops = |a: &Value| -> Vec<Op> { a.as_array().unwrap().iter().map(|o| Op::from_json(o).unwrap()).collect() };
+            let sc = SchedScenario {
+                name: r["scenario"].as_str().unwrap_or("").into(),
+                img,
+                cfg,
+                cfg_name: r["cfg_name"].as_str().unwrap_or("").into(),
+                setup: ops(&r["setup"]),
+                tasks: r["tasks"].as_array().unwrap().iter().map(ops).collect(),
+                fused: r["fused"].as_bool().unwrap_or(true),
+            };
+            let sched: Vec<usize> = r["schedule"].as_array().unwrap().iter().map(|x| x.as_u64().unwrap() as usize).collect();
+            println!("{}", sc.describe());
+            match sc.execute(&sched) {
+                Ok(x) => {
+                    println!("deadlock={} livelock={} panic={:?} steps={} choice points={:?}", x.deadlock, x.livelock, x.panic, x.steps, x.points);
+                    for rec in x.records.iter() {
+                        println!("  T{} {} [{}..{}] -> {}", rec.task, rec.op.short(), rec.inv, rec.resp, if rec.finished { rec.res.short() } else { "(never returned)".into() });
+                    }
+                    for l in x.world.sim.borrow().log_lines(x.log_start) {
+                        println!("      {}", l);
+                    }
+                    let o = lin::judge(&sc, x, &["C02", "C06", "C07", "C18"]);
+                    for v in o.violations {
+                        println!("VIOLATION {} {}: {}", v.prop, v.class, v.detail.chars().take(400).collect::<String>());
+                    }
+                    0
+                }
+                Err(e) => {
+                    eprintln!("machinery error: {}", e);
+                    2
+                }
+            }
+        }
+        other => {
+            eprintln!("replay of engine '{}' is handled by re-running the check (inputs are enumerated deterministically); case: {}", other, r);
+            0
+        }
+    }
 }
 pub fn selftest() -> i32 {
     0
@@ -475,4 +604,167 @@ pub fn crash_family(prop: &str) -> i32 {
         "no tearing inside a 512-byte block; no reordering across a completed fsync".into(),
         "SpecKit checker decides safety of an image (C04); the library itself opens crash images for C05".into(),
     ])
+}
+
+
+// =====================================================================
+// FAULT: C17
+// =====================================================================
+pub fn fault_check() -> i32 {
+    use crate::fault::{all_histories, FaultScenario, FaultStats, Plan};
+    let run = Run::new("C17", "fault_enumeration");
+    let thorough = run.thorough();
+    // (geometry, image kinds, cfg, depth, pairs)
+    let plans: Vec<(Geo, Vec<&str>, &str, usize, bool)> = if !thorough {
+        vec![(images::G9, vec!["libfmt"], "small", 2, false), (images::G10, vec!["libfmt", "data"], "small", 2, false), (images::G10, vec!["libfmt"], "small", 3, false)]
+    } else {
+        vec![
+            (images::G9, vec!["libfmt", "data"], "small", 4, false),
+            (images::G10, vec!["libfmt", "data", "compressed", "backing"], "small", 4, false),
+            (images::G10, vec!["libfmt", "data"], "ample", 3, true),
+            (images::G12, vec!["libfmt"], "small", 3, false),
+        ]
+    };
+    qcow2_rs::verif::set_order_salt(0);
+    let deadline = deadline_in(if thorough { 1500 } else { 40 });
+    let mut total = FaultStats::default();
+    let mut samples = vec![];
+    let mut scen = vec![];
+    let mut capped = false;
+    for (g, kinds, cfgn, depth, pairs) in plans {
+        for img in images::initial_images(&g, &kinds) {
+            let sc = FaultScenario { img: img.clone(), cfg: cfg_of(&g, cfgn), cfg_name: cfgn.to_string() };
+            let mut alphabet = images::crash_alphabet(&g);
+            alphabet.retain(|o| !matches!(o, Op::Sync));
+            let hists = all_histories(&alphabet, depth);
+            let results: Vec<(FaultStats, Vec<Violation>)> = hists
+                .par_iter()
+                .map(|h| {
+                    let mut st = FaultStats::default();
+                    let mut v = vec![];
+                    if std::time::Instant::now() > deadline {
+                        return (st, v);
+                    }
+                    st.histories = 1;
+                    let (start, n) = match sc.count_requests(h) {
+                        Ok(x) => x,
+                        Err(_) => return (st, v),
+                    };
+                    st.requests = (n - start) as u64;
+                    for i in start..n {
+                        v.extend(sc.run(h, &Plan::Ids(vec![i]), &mut st));
+                    }
+                    if pairs && n - start <= 40 {
+                        for i in start..n {
+                            for j in i + 1..n {
+                                v.extend(sc.run(h, &Plan::Ids(vec![i, j]), &mut st));
+                            }
+                        }
+                    }
+                    for k in ['R', 'W', 'Z', 'F'] {
+                        v.extend(sc.run(h, &Plan::Kind(k), &mut st));
+                    }
+                    v.extend(sc.run(h, &Plan::PunchUnsupported, &mut st));
+                    // keep one instance per class per history
+                    let mut seen = std::collections::HashSet::new();
+                    v.retain(|x| seen.insert(x.class.clone()));
+                    (st, v)
+                })
+                .collect();
+            let mut st = FaultStats::default();
+            let mut viols = vec![];
+            for (s, v) in results {
+                st.histories += s.histories;
+                st.runs += s.runs;
+                st.changed_result += s.changed_result;
+                st.requests += s.requests;
+                viols.extend(v);
+            }
+            if (st.histories as usize) < hists.len() {
+                capped = true;
+            }
+            run.add_all(viols);
+            if samples.len() < 8 {
+                samples.push(format!("{} {} depth {}: e.g. history [{}] with request k failing for every k", img.name, cfgn, depth, hist_str(&hists[hists.len() / 2])));
+            }
+            scen.push(json!({"image": img.name, "cfg": cfgn, "depth": depth, "pairs": pairs, "histories": st.histories, "of": hists.len(),
+                "fault_runs": st.runs, "runs_where_a_request_failed": st.changed_result, "requests_in_fault_free_runs": st.requests}));
+            total.histories += st.histories;
+            total.runs += st.runs;
+            total.changed_result += st.changed_result;
+            total.requests += st.requests;
+        }
+    }
+    let cov = json!({
+        "evaluations": total.runs,
+        "distinct_nontrivial": total.changed_result,
+        "rule": "for every history of the reduced alphabet at the stated depth: one run per backend request with exactly that request failing (plus all pairs where stated, plus 'every request of kind R/W/Z/F fails' and 'hole punch unsupported'); distinct_nontrivial = runs in which the injected fault actually hit a request",
+        "samples": samples,
+        "histories": total.histories,
+        "exhaustive": !capped,
+        "scenarios": scen,
+    });
+    run.finish(cov, vec![
+        "a failed write/zero request has no effect on the file".into(),
+        "after the fault the backend heals completely; flush_meta is retried at most 4 times".into(),
+    ])
+}
+
+
+// =====================================================================
+// C10: copy-on-write over backing / compressed sources
+// =====================================================================
+pub fn cow_check() -> i32 {
+    let run = Run::new("C10", "model_checking");
+    let thorough = run.thorough();
+    let kinds_all = vec!["backing", "backing-short", "backing-long", "chain2", "compressed", "compressed-boundary"];
+    let plans: Vec<(Geo, Vec<&str>, Vec<&str>, usize, u64)> = if !thorough {
+        vec![(images::G10, kinds_all.clone(), vec!["small"], 3, 30), (images::G9, vec!["backing", "compressed"], vec!["small"], 3, 10)]
+    } else {
+        vec![
+            (images::G10, kinds_all.clone(), vec!["small", "ample"], 5, 600),
+            (images::G9, kinds_all.clone(), vec!["small"], 5, 300),
+            (images::G12, vec!["backing", "backing-short", "compressed", "compressed-boundary"], vec!["small", "default"], 3, 200),
+        ]
+    };
+    let oracles = Oracles { c01: true, c02: true, c03: true, c10: true, c16: false, c18: false, ..Default::default() };
+    let mut viol: Vec<Violation> = vec![];
+    let mut scen = vec![];
+    let (mut states, mut trans, mut outcomes) = (0u64, 0u64, 0u64);
+    let mut samples: Vec<String> = vec![];
+    let mut all_complete = true;
+    for (g, kinds, cfgs, depth, secs) in plans.iter() {
+        let imgs = images::initial_images(g, kinds);
+        let n = (imgs.len() * cfgs.len()) as u64;
+        for img in imgs {
+            for cfgn in cfgs.iter() {
+                qcow2_rs::verif::set_order_salt(0);
+                let mut sc = SeqScenario::new(img.clone(), cfg_of(g, cfgn), g.cfg_alt(), cfgn, images::cow_alphabet(g), oracles.clone());
+                sc.relabel = Some("C10".into());
+                let lim = BfsLimits { depth: *depth, max_states: 3_000_000, deadline: deadline_in((secs / n).max(2)) };
+                let st = bfs(&sc, &lim, &mut viol);
+                states += st.states;
+                trans += st.transitions;
+                outcomes += st.distinct_outcomes;
+                if st.capped || st.depth_completed < st.depth_target {
+                    all_complete = false;
+                }
+                if let Some(s) = st.samples.get(1).or(st.samples.first()) {
+                    if samples.len() < 12 {
+                        samples.push(format!("{}: {}", crate::hist::Scenario::name(&sc), s));
+                    }
+                }
+                scen.push(stats_json(&crate::hist::Scenario::name(&sc), &st));
+            }
+        }
+    }
+    run.add_all(viol);
+    let cov = json!({
+        "states": states, "transitions": trans, "traces_validated_against_impl": trans, "samples": samples,
+        "evaluations": trans, "distinct_nontrivial": outcomes,
+        "rule": "explicit-state BFS over histories of partial/straddling writes, reads, discards, flush and reopen over clusters provided by a backing chain (equal, shorter, longer, depth 2) or stored compressed (inside / ending on a host cluster boundary); oracles: reference disk sweep, reopen, strict checker (compressed run released exactly once), request log of every read-only device holds reads only",
+        "exhaustive": all_complete,
+        "scenarios": scen,
+    });
+    run.finish(cov, vec!["builder images (SpecKit) are valid qcow2 (self-test + C09)".into(), "as C01".into()])
 }
